@@ -15,6 +15,8 @@ CHECKS = {
     "C09": oneway.c09,
     "C10": hub.c10,
     "C11": hub.c11,
+    "C12": hub.c12,
+    "C13": hub.c13,
     "C14": oneway.c14,
     "C15": oneway.c15,
     "C16": libchecks.c16,
